@@ -131,6 +131,14 @@ def gen_model(rng, idx):
     for u in inputs:
         series[u] = [str(dyc(-4, 4)) for _ in range(sum(spec.get("multiples", [1] * nsteps)) + 1)]
     spec["series"] = series
+    if idx in (2, 3) and not spec["delays"] and not spec.get("multiples"):
+        # (own random stream) steps of one and two import intervals in turn: the step size changes between calls
+        import random
+        r3 = random.Random(900 + idx)
+        spec["multiples"] = [2 if k % 2 else 1 for k in range(nsteps)]
+        need = sum(spec["multiples"]) + 1
+        for u in inputs:
+            series[u] = series[u] + [str(Fraction(r3.randint(-16, 16), 4)) for _ in range(need - len(series[u]))]
     initial_state_features(spec, force=idx < 2)
     return spec
 
@@ -473,6 +481,16 @@ def run(ctx):
         n = len(obs)
         if len(ctx.samples) < 2:
             ctx.sample({"model": mo.model_text(spec), "series": spec["series"], "trajectory": obs[:3]})
+        # every derivative after a step is the backward difference quotient over the step actually taken
+        for k_ in range(1, n):
+            dt_ = obs[k_]["time"] - obs[k_ - 1]["time"]
+            for v in spec["states"]:
+                nm_ = v["name"]
+                q_ = (obs[k_][nm_] - obs[k_ - 1][nm_]) / dt_
+                if abs(obs[k_]["der(%s)" % nm_] - q_) > 1e-7 * (abs(q_) + 1e-3):
+                    ctx.violation("sim/backward-difference", {"spec": spec, "state": nm_, "step": k_, "dt": dt_, "der": obs[k_]["der(%s)" % nm_], "quotient": q_},
+                                  what="after step %d (dt = %s) der(%s) = %r, (x(t+dt) - x(t)) / dt = %r" % (k_, dt_, nm_, obs[k_]["der(%s)" % nm_], q_))
+                    break
         # fixed starts
         for v in spec["states"]:
             if v.get("fixed") and abs(obs[0][v["name"]] - float(Fraction(v["start"]))) > 1e-7:
